@@ -70,6 +70,9 @@ type Runtime struct {
 	OpFaults map[int]string
 	// NoParkSubscribe names primitives whose event-stream opens are served without parking (see subscribe).
 	NoParkSubscribe func(prim string) bool
+	// LateAck selects write operations whose acknowledgement is a scheduled action of its own ("ack/..."): the write has
+	// taken effect and its events flow while the caller still waits for the response (slow response, descheduled caller).
+	LateAck func(prim, op string) bool
 	immediate       sync.Mutex
 	// OnWrite is called (on the scheduler goroutine) after every durable write.
 	OnWrite func(w WriteRec)
@@ -213,6 +216,13 @@ func (r *Runtime) write(ctx context.Context, prim, op, key string, fn func(p *Pr
 	}, ctx)
 	if !ok {
 		return aerr.NewCanceled("withdrawn")
+	}
+	if r.LateAck != nil && r.LateAck(prim, op) {
+		r.k.Stat("late-ack")
+		if !r.k.Park(fmt.Sprintf("ack/%s/%s/%s", prim, op, key), func() {}, ctx) {
+			// the caller went away (deadline, crash) while the response was on its way: the write stands
+			return aerr.NewCanceled("response withdrawn")
+		}
 	}
 	return err
 }
